@@ -40,6 +40,7 @@ CBMC_BASE = ['--no-standard-checks', '--bounds-check', '--pointer-check', '--unw
 SLICE = ['--slice-formula']   # cone-of-influence reduction; not used for trace runs (the replay log must stay in the formula)
 JOBS = int(os.environ.get('VERIF_JOBS', '16'))
 RUN_TAG = 'run'   # set by the driver to the property id
+LIBC_BOUNDS = {}   # harness family -> unwinding bound of the memcmp/bcmp models (default 130); filled by checks.py
 
 
 class Inconclusive(Exception):
@@ -130,6 +131,11 @@ def _limits(mem_gb):
 
 def run_cbmc(cfile, c_entry, unwind, defs=(), extra=(), timeout=300, mem_gb=8, slice_=True, checks=True):
     base = list(CBMC_BASE)
+    # families that compare short slices at many call sites: a smaller bound for the libc byte loops (still guarded by their unwinding assertions)
+    fam_ = re.sub(r'(_\d+)+\.c$', '', os.path.basename(cfile))[2:]
+    if fam_ in LIBC_BOUNDS:
+        j = base.index('--unwindset')
+        base[j + 1] = base[j + 1].replace(':130', ':%d' % LIBC_BOUNDS[fam_])
     if not checks:
         base = [x for x in base if x not in ('--bounds-check', '--pointer-check')]
     extra = list(extra)
@@ -289,7 +295,7 @@ def solve(res, caps):
         return res
     t0 = time.time()
     info, cfile, unwind = res['info'], res['cfile'], res['unwind']
-    caps = dict(caps, max_unwind=max(caps['max_unwind'], unwind + 6))   # wide-capacity families: the cap follows the capacity
+    caps = dict(caps, max_unwind=max([caps['max_unwind'], unwind + 6] + [p + 6 for p in res.get('params', [])]))   # wide-capacity families: the cap follows the capacity
     tries = []
     loopb = {}   # per-loop bounds found by deepening: "function.loopnr" -> bound
 
@@ -321,7 +327,7 @@ def solve(res, caps):
             if cur < caps['max_unwind']:
                 loopb[key] = min(caps['max_unwind'], max(cur + 2, cur * 2 if rounds > 1 else cur + 2))
                 grew = True
-        if not grew or rounds > 12:
+        if not grew or rounds > 30:
             break
     res['loop_bounds'] = dict(loopb)
     while True:
